@@ -946,6 +946,28 @@ def gen_access(rng):
     return case
 
 
+def gen_partial_bank(rng):
+    """hand-written access patterns whose innermost contiguous run is 9..31 bytes and NOT a multiple of the 8-byte bank
+    (12 x i8, 5 x i16, 3 x i32 ...), rows padded to the next bank multiple (so that the merge checks pass), or not: the
+    conversion has to refuse them (a partially used last bank would be fetched in full)"""
+    variant = rng.choice(["alu", "alu", "xdma_add"])
+    el = rng.choice(["i8", "i16", "i32"]) if variant == "alu" else "i32"
+    elb = EL_BYTES[el]
+    inner = rng.choice([n for n in range(2, 32) if 8 < n * elb < 32 and (n * elb) % 8 != 0])
+    run = inner * elb
+    padded = -(-run // 8) * 8
+    nb = rng.choice([2, 2, 4, 4, 3, 6, 8])
+    row = padded if rng.random() < 0.8 else rng.choice([run, padded + 8])
+    bounds, strides = [nb, inner], [row, elb]
+    if rng.random() < 0.4:
+        ob = rng.choice([2, 3])
+        bounds, strides = [ob] + bounds, [row * nb + rng.choice([0, 0, 16])] + strides
+    case = {"kind": "access", "variant": variant, "bounds": bounds, "strides": [list(strides) for _ in range(3)]}
+    if variant == "alu":
+        case["el"] = el
+    return case
+
+
 # ------------------------------------------------------------------------------------------------
 class C02(Prop):
     id = "C02"
@@ -1002,6 +1024,8 @@ class C02(Prop):
             yield gen_region(rng)
         for _ in range(50 if q else 800):
             yield gen_cyclic(rng)
+        for _ in range(40 if q else 600):
+            yield gen_partial_bank(rng)
         for _ in range(36 if q else 600):
             yield gen_conv(rng)
         if not q:
